@@ -178,6 +178,30 @@ def shard_numbers(sh):
     return st.result([drv])
 
 
+def shard_scratch(sh):
+    """an annotation read back after quoted strings of other lengths in the same text (the scanner collects all three in one
+    scratch buffer): a long string, a shorter one, then a comment of every length up to the long one"""
+    deadline = sh
+    drv = get_driver('asan')
+    drv.define_schema('S5', FAM['S5'].spec())
+    st = ShardStats('annotation after strings of other lengths')
+    cases = []
+    for longlen in (24, 40):
+        for shortlen in (0, 1, 5):
+            for clen in range(1, longlen + 2):
+                text = (b'word ' * 10)[:clen].rstrip() or b'w'
+                a = ['setstr A %s %s' % (enc(b's'), enc(b'x' * longlen)), 'setlist A %s str 1 %s' % (enc(b'sl'), enc(b'y' * shortlen)),
+                     'setcomment A %s %s' % (enc(b'i'), enc(text)), 'setcomment A %s %s' % (enc(b'mt'), enc(text))]
+                cases.append((Case(['init A S5 %d' % CM] + a + rt_lines('S5', CM)), CM))
+    for (c, fl), r in zip(cases, drv.run([c for c, _ in cases])):
+        judge(st, 'S5', c, r, fl, 'scratch')
+        if time.time() > deadline:
+            st.complete = False
+            break
+    st.samples.append({'states': 's = 24 / 40 bytes, sl = {0 / 1 / 5 bytes}, annotation of every length 1..41 on the next option'})
+    return st.result([drv])
+
+
 def shard_strings(sh):
     positions, values, deadline = sh
     drv = get_driver('asan')
@@ -220,6 +244,7 @@ def main():
     engine.phase(ck, 'all strings of length 2..%d over %d meta characters at 7 positions' % (L, len(META)), shard_strings,
                  [(positions, list(ch), dl) for ch in engine.chunks(strs, 12 if quick else 200)], values=len(strs))
     engine.phase(ck, 'boundary numbers, negative zero, empty lists / strings / titles', shard_numbers, [dl])
+    engine.phase(ck, 'an annotation of every length 1..41 read back after a long and a shorter quoted string', shard_scratch, [dl])
     N = 6 if quick else 8
     shards = []
     for sid in PRINTABLE:
